@@ -852,7 +852,7 @@ def build(glyphs, cfg, names=None, tmpdir=None):
         svg = SVG.fromstring(svg_text(g))
         if cfg.has_picosvgs:
             svg = svg.topicosvg(inplace=True)
-        name = names[i] if names else glyph_name(g.codepoints)
+        name = names[i] if names else (getattr(g, "name", None) or glyph_name(g.codepoints))
         inputs.append(write_font.InputGlyph(Path(f"src/g{i}.svg"), None, g.codepoints, name, svg, None))
     fea = None
     if tmpdir is not None:
